@@ -63,7 +63,7 @@ class ClassTr:
     """Translates methods of one class (or module-level functions when cls is None)."""
 
     def __init__(self, tree, cls, prefix, ctor_params=None, methods=(), drop_args=('rtol', 'tol'),
-                 known=None, skip_attrs=(), const_attrs=None, extra_np1=None):
+                 known=None, skip_attrs=(), const_attrs=None, extra_np1=None, delegates=None, extra_sources=()):
         self.tree = tree
         self.cls = cls
         self.prefix = prefix
@@ -73,6 +73,14 @@ class ClassTr:
         self.skip_attrs = set(skip_attrs)
         self.const_attrs = dict(const_attrs or {})
         self.classes = {n.name: n for n in tree.body if isinstance(n, ast.ClassDef)}
+        for p in extra_sources:               # base classes that live in another file (C06: NotchApproximationLawBase)
+            for n in ast.parse(open(p).read()).body:
+                if isinstance(n, ast.ClassDef):
+                    self.classes.setdefault(n.name, n)
+        # attributes holding another translated object: attr -> (class name, prefix, method whitelist);
+        # the constructor arguments are read from the assignment in __init__ (C06: self._ramberg_osgood_relation)
+        self.delegates = dict(delegates or {})
+        self.delegate_args = {}
         self.modfuncs = {n.name: n for n in tree.body if isinstance(n, ast.FunctionDef)}
         self.modconsts = {}
         for n in tree.body:
@@ -99,6 +107,7 @@ class ClassTr:
                 break
             out.append(c)
             bases = [b.id for b in c.bases if isinstance(b, ast.Name) and b.id in self.classes]
+            bases += [b.attr for b in c.bases if isinstance(b, ast.Attribute) and b.attr in self.classes]
             if len(bases) > 1:
                 raise Unsupported('multiple inheritance in ' + name)
             name = bases[0] if bases else None
@@ -143,6 +152,15 @@ class ClassTr:
                 if isinstance(st, ast.Assign) and len(st.targets) == 1 and isinstance(st.targets[0], ast.Attribute) \
                         and isinstance(st.targets[0].value, ast.Name) and st.targets[0].value.id == 'self':
                     a = st.targets[0].attr
+                    if a in self.delegates:
+                        v = st.value
+                        fname = v.func.attr if isinstance(v, ast.Call) and isinstance(v.func, ast.Attribute) else \
+                            v.func.id if isinstance(v, ast.Call) and isinstance(v.func, ast.Name) else None
+                        if fname != self.delegates[a][0] or v.keywords:
+                            raise Unsupported('delegate %s is not constructed as %s(...)' % (a, self.delegates[a][0]))
+                        self.attrs = {x for x, _ in lets}
+                        self.delegate_args[a] = [self.expr(x, env) for x in v.args]
+                        continue
                     if a in self.skip_attrs:
                         continue
                     self.attrs = {x for x, _ in lets}
@@ -257,6 +275,24 @@ class ClassTr:
                         and ast.unparse(w.comparators[0]) == '0':
                     a, b = self.expr(n.args[0], env), self.expr(n.args[1], env)
                     return '(if Req_EM_T %s 0 then 1 else %s / %s)' % (b, a, b)
+                # np.divide(a, b, out=np.ones_like(x), where=c != 0)  /  where=c > 0   (any guard expression c)
+                if isinstance(o, ast.Call) and ast.unparse(o.func) == 'np.ones_like' and isinstance(w, ast.Compare) \
+                        and len(w.ops) == 1 and ast.unparse(w.comparators[0]) == '0':
+                    a, b, c = self.expr(n.args[0], env), self.expr(n.args[1], env), self.expr(w.left, env)
+                    if isinstance(w.ops[0], ast.NotEq):
+                        return '(if Req_EM_T %s 0 then 1 else %s / %s)' % (c, a, b)
+                    if isinstance(w.ops[0], ast.Gt):
+                        return '(if Rlt_dec 0 %s then %s / %s else 1)' % (c, a, b)
+            if f.attr == 'power' and len(n.args) == 2 and set(kw) == {'out', 'where'}:
+                # np.power(x, -k, out=np.ones_like(x), where=x != 0)  with a literal negative integer exponent
+                w, o, x = kw['where'], kw['out'], n.args[1]
+                if isinstance(o, ast.Call) and ast.unparse(o.func) == 'np.ones_like' and isinstance(w, ast.Compare) \
+                        and len(w.ops) == 1 and isinstance(w.ops[0], ast.NotEq) and ast.unparse(w.comparators[0]) == '0' \
+                        and ast.unparse(w.left) == ast.unparse(n.args[0]) \
+                        and isinstance(x, ast.UnaryOp) and isinstance(x.op, ast.USub) and isinstance(x.operand, ast.Constant) \
+                        and isinstance(x.operand.value, int) and not isinstance(x.operand.value, bool) and x.operand.value > 0:
+                    b = self.expr(n.args[0], env)
+                    return '(if Req_EM_T %s 0 then 1 else / (%s ^ %d))' % (b, b, x.operand.value)
             raise Unsupported('np.%s call %s' % (f.attr, ast.unparse(n)[:60]))
         if isinstance(f, ast.Name) and f.id == 'abs' and len(n.args) == 1:
             return '(Rabs %s)' % self.expr(n.args[0], env)
@@ -273,6 +309,13 @@ class ClassTr:
             if f.attr in self.methods:
                 return '(' + ' '.join([self.prefix + f.attr] + [ident(p) for p in self.ctor_params] + args) + ')'
             raise Unsupported('call of self.%s (not in the method whitelist)' % f.attr)
+        if isinstance(f, ast.Attribute) and isinstance(f.value, ast.Attribute) and isinstance(f.value.value, ast.Name) \
+                and f.value.value.id == 'self' and f.value.attr in self.delegate_args:
+            cls, prefix, allowed = self.delegates[f.value.attr]
+            if f.attr not in allowed:
+                raise Unsupported('call of %s.%s (not in the delegate whitelist)' % (f.value.attr, f.attr))
+            args = [self.expr(a, env) for a in n.args] + [self.expr(v, env) for v in kw.values()]
+            return '(' + ' '.join([prefix + f.attr] + self.delegate_args[f.value.attr] + args) + ')'
         if isinstance(f, ast.Attribute) and isinstance(f.value, ast.Call) and isinstance(f.value.func, ast.Name) \
                 and f.value.func.id == 'super' and ('super_' + f.attr) in self.methods:
             args = [self.expr(a, env) for a in n.args]
